@@ -61,7 +61,7 @@ def run(prop, tier):
         ctx.add(evaluations=n, transitions=n, states=len(dom))
         ctx.part("compat-relation", pairs=n)
         # (a2) version_parse on every string of length <= L over a small alphabet
-        L = 6 if tier == "quick" else 7
+        L = 6 if tier == "quick" else (8 if tier == "deep" else 7)
         alpha = "01.-a"
         strings = [""] + ["".join(t) for k in range(1, L + 1) for t in itertools.product(alpha, repeat=k)]
         strings += ["1.2.3-rc1", "10.20.30", "1.2.3.4", "1..2.3", "1. 11.0", " 1.2.3", "+1.2.3", "1.2.3 ", "1.2.-3", "1.+2.3", "99999999999.1.1",
